@@ -54,7 +54,7 @@ def run(ck, pid="C02"):
                       "over 1-3 files open together, payloads on both sides of 4096 / 246 / 100000 bytes, arrays re-dimensioned after "
                       "first being written, wide parents; each run on ADF, HDF5 and the extracted TreeDB, then reopened read-only and "
                       "read back completely. non-trivial = contains a delete, a reopen and a payload above 4096 bytes; distinct by SHA1")
-    n = 400 if thorough else 70
+    n = 260 if thorough else 70
     dist = {"ops": {}, "files": {}, "histories": 0, "lines": 0}
     fails = []
     for i in range(n):
